@@ -70,8 +70,10 @@ where
 {
     type Value = Prev::Output;
     type Reader = MappedMutArc<Inner::Reader, Prev::Output>;
-    type Writer =
-        MappedMutArc<WriteGuard<ArcTrigger, Inner::Writer>, Prev::Output>;
+    type Writer = MappedMutArc<
+        WriteGuard<Vec<ArcTrigger>, Inner::Writer>,
+        Prev::Output,
+    >;
 
     fn path(&self) -> impl IntoIterator<Item = StorePathSegment> {
         self.inner
@@ -95,8 +97,14 @@ where
     }
 
     fn writer(&self) -> Option<Self::Writer> {
-        let trigger = self.get_trigger(self.path().into_iter().collect());
-        let inner = WriteGuard::new(trigger.children, self.inner.writer()?);
+        let mut parent = self.inner.writer()?;
+
+        // as for a `Subfield`: the parent and ancestor `children` triggers are included in
+        // triggers_for_current_path() below, so the parent writer is untracked; otherwise it
+        // would also notify the parent's `this` trigger, which notifies our siblings too
+        parent.untrack();
+        let triggers = self.triggers_for_current_path();
+        let inner = WriteGuard::new(triggers, parent);
         let index = self.index;
         Some(MappedMutArc::new(
             inner,
